@@ -260,6 +260,27 @@ fn show_res(x: &IndicatorResult) -> Value {
 	json!({"values": x.values().iter().map(|v| fj(*v as f64)).collect::<Vec<_>>(), "signals": x.signals().iter().map(|s| format!("{s:?}")).collect::<Vec<_>>()})
 }
 
+/// every moving-average field of the configuration is of a kind that is an exact fixed point on constant input
+fn strict_kinds(cfg: &Value) -> bool {
+	const EXACT: [&str; 9] = ["sma", "smm", "ema", "dma", "tma", "dema", "tema", "trima", "wsma"];
+	let mut any = false;
+	let mut all = true;
+	if let Some(o) = cfg.as_object() {
+		for v in o.values() {
+			if let Some(m) = v.as_object() {
+				if m.len() == 1 {
+					let k = m.keys().next().unwrap();
+					if crate::icfg::MA_KEYS.contains(&k.as_str()) {
+						any = true;
+						all &= EXACT.contains(&k.as_str());
+					}
+				}
+			}
+		}
+	}
+	any && all
+}
+
 fn indicator_constancy(d: &reg::IDesc, cfg: &dyn reg::DC, c: &Candle, steps: usize, r: &mut Report) {
 	let cfgv = cfg.ser().unwrap_or(Value::Null);
 	if cfg_is_cumulative(d.name, &cfgv) {
@@ -274,8 +295,18 @@ fn indicator_constancy(d: &reg::IDesc, cfg: &dyn reg::DC, c: &Candle, steps: usi
 		let mut bad = None;
 		let mut values_moved = false;
 		let mut exempt = 0u64;
+		// configurations whose averaging kinds are exact fixed points on constant input (running sums that add x - x = 0,
+		// recursions that add alpha * (x - x) = 0, selections): there every value must stay bit-identical, so a value that
+		// moves by an ulp is itself the sign of a seed that disagrees with what next() feeds, and signals are judged throughout
+		// (only for indicators whose other internals are exact on a constant candle as well: selections, differences and one
+		// deterministic ratio; a windowed running sum (s + x) - x is not an exact fixed point)
+		let strict = matches!(d.name, "StochasticOscillator" | "MACD" | "AwesomeOscillator") && strict_kinds(&cfgv);
 		for k in 1..steps {
 			let o = i.next(c);
+			if strict && !values_bit_equal(&reference, &o) {
+				bad = Some((k, "value-not-bit-constant(exact-kinds)".to_string(), reference, o));
+				break;
+			}
 			values_moved |= !values_bit_equal(&reference, &o);
 			if let Err(what) = res_close(&reference, &o, cmag(c), !values_moved) {
 				bad = Some((k, what, reference, o));
